@@ -27,9 +27,42 @@ def c19_6(cx):
     st = [x for x in cx.stores(u) if x[1].endswith(".blocked_on_id")]
     cx.sites(st, 1, "edge rewrite")
     cx.flow(u, st[0][2], [r"^\$5$"], [r"^const:"], "a direct waiter's edge is re-pointed at the new owner thread", st[0][0])
-    f = cx.fn(DG + r"unblock_transfer_target::find_blocked_thread$")
-    cb = cx.closure_passed_to(f, r"^std::iter::Iterator::find_map$")
-    cx.must_call(cb, DG + r"unblock_transfer_target::find_blocked_thread$", "the search for the thread to resume recurses through every level of transferred dependents")
+    # the search for the thread to resume must walk the whole transfer tree: the helper (or closure) nested in
+    # unblock_transfer_target that looks into `transferred_dependents` has to be recursive (lie on a cycle of the
+    # call graph of the nested bodies); a helper that looks one level down and calls a non-recursive search is not
+    ut = cx.fn(DG + r"unblock_transfer_target$")
+    nested = [b for b in cx.facts.all_bodies() if b.path.startswith(ut.path + "::")]
+    cx.require(len(nested) >= 1, "helpers nested in unblock_transfer_target")
+    graph = {}
+    for b in nested:
+        outs = set()
+        for _, callee in cx.facts.callees_of(b):
+            if callee and callee.startswith(ut.path + "::"):
+                outs.add(callee)
+        for _, c in cx.facts.closures_of(b):
+            outs.add(c.path)
+        graph[b.path] = outs
+
+    def on_cycle(p):
+        seen, stack = set(), list(graph.get(p, ()))
+        while stack:
+            q = stack.pop()
+            if q == p:
+                return True
+            if q in seen:
+                continue
+            seen.add(q)
+            stack += list(graph.get(q, ()))
+        return False
+
+    lookers = []
+    for b in nested:
+        for g in b.calls(r"HashMap::<K, V, S(, A)?>::get$"):
+            if cx.arg(g, 0).endswith(".transferred_dependents"):
+                lookers.append((b, g))
+    cx.sites(lookers, 1, "lookup of transferred_dependents in the search for the thread to resume")
+    for b, g in lookers:
+        cx.check(on_cycle(b.path), "the search for the thread to resume recurses through every level of transferred dependents", g, {"helper": b.path, "calls": sorted(graph.get(b.path, ()))}, key="search-recursive")
     o = cx.fn(DG + r"unblock_runtimes_blocked_on_transferred_queries_owned_by::unblock_recursive$")
     rec = cx.some_calls(o, r"unblock_recursive$", 1, "recursion in unblock_recursive")
     ub = cx.some_calls(o, DG + r"unblock_runtimes_blocked_on$", 1, "unblock per transferred query")
@@ -37,3 +70,24 @@ def c19_6(cx):
         cx.flow(o, cx.arg(r, 2), [r"^\$3$"], [], "nested transferred waiters get the same wait result", r)
     d = cx.fn(r"^runtime::dependency_graph::Edges::depends_on$")
     cx.check(bool(d.back_edges()), "depends_on follows the whole chain of wait-for edges (loop)", body=d, key="depends-on-loop")
+
+
+@ob("C18.6", ["C18", "C19", "C14"], "the lock-transfer relation must stay a forest: re-transferring `d -> c` while `c -> .. -> d` exists closes a cycle unless the WHOLE chain from the new owner is walked; with a cycle among transfers the owner lookup and every tree walk above never terminate", kind="LOOPRANK (the chain walk is a loop that follows the transfer chain)")
+def c18_6(cx):
+    """transfer_lock, re-transfer path: starting from transferred[new_owner] a loop follows entry.get().1 (the next transfer target) for as long as entries exist; it stops early only after it found the link back to `query` and rewired it (insert/remove on that entry)."""
+    t = cx.fn(DG + r"transfer_lock$")
+    ents = [s for s in t.calls(r"^std::collections::HashMap::<K, V, S(, A)?>::entry$") if cx.arg(s, 0).endswith(".transferred")]
+    cx.sites(ents, 2, "lookups in `transferred` in transfer_lock")
+    first = [s for s in ents if cx.arg(s, 1) == "$4"]
+    cx.sites(first, 1, "the chain walk starts at transferred[new_owner]")
+    nxt = [s for s in ents if re.search(r"OccupiedEntry::<'a, K, V, A>::get\(.*\)\.1$", cx.arg(s, 1))]
+    cx.check(len(nxt) >= 1, "the walk continues with the next transfer target (entry.get().1)", first[0], {"keys": [cx.arg(s, 1)[:120] for s in ents]}, key="follows-chain")
+    for s in nxt:
+        in_loop = any(s.bb in t.reachable(succ, "normal") for succ, _ in t.succs(s.bb, "normal"))
+        cx.check(in_loop, "following the chain is iterated (a loop), not a single step", s, key="chain-loop")
+        cx.flow(t, cx.arg(s, 1), [r"entry\(\$1\.transferred, "], [], "the next segment is looked up from the previous segment's target", s)
+    # a loop header: the walk leaves the loop only on a vacant entry or after rewiring the link back to `query`
+    if nxt:
+        s = nxt[0]
+        rew = [x for x in t.calls(r"OccupiedEntry::<'a, K, V, A>::(insert|remove)$") if t.reaches(first[0], x)]
+        cx.check(len(rew) >= 2, "the link that would close the cycle is removed or re-pointed", s, key="rewire")
